@@ -38,6 +38,18 @@ class Sched:
             self.sems[1 - tid].release()
             self.sems[tid].acquire()
 
+    def yield_to_other(self):
+        """unconditional hand-over (not a preemption of the schedule): used by cooperative stand-ins for real locks,
+        whose waiting must be visible to the scheduler"""
+        tid = _local_tid.get(threading.get_ident())
+        if tid is None:
+            return False
+        if self.done[1 - tid]:
+            return False
+        self.sems[1 - tid].release()
+        self.sems[tid].acquire()
+        return True
+
     def _body(self, tid, fn, out):
         _local_tid[threading.get_ident()] = tid
         self.sems[tid].acquire()
@@ -77,7 +89,38 @@ class Sched:
         return out
 
 
-def explore(run_schedule, bound, on_result, max_schedules=None):
+class CoopLock:
+    """stand-in for a threading.(R)Lock of the library under the baton scheduler: a thread that finds it held hands
+    the baton over until it is free (a real lock would block the only running thread for ever)"""
+
+    def __init__(self, holder):
+        self.holder = holder          # [Sched or None]
+        self.owner = None
+        self.depth = 0
+
+    def __enter__(self):
+        me = threading.get_ident()
+        while self.owner not in (None, me):
+            s = self.holder[0]
+            if s is None or not s.yield_to_other():
+                raise Deadlock('lock held by a thread that cannot run')
+        self.owner = me
+        self.depth += 1
+        return self
+
+    def __exit__(self, *exc):
+        self.depth -= 1
+        if self.depth == 0:
+            self.owner = None
+        return False
+
+    acquire = __enter__
+
+    def release(self):
+        self.__exit__()
+
+
+def explore(run_schedule, bound, on_result, max_schedules=None, first=None):
     """run_schedule(prefix) -> Sched (after running).  Enumerates every schedule with <= bound preemptions.
     Replaying prefix + [i] repeats the execution of `prefix` up to point i (the implementation is
     deterministic under the baton) and then switches; a preemption point that does not exist or at
@@ -96,6 +139,8 @@ def explore(run_schedule, bound, on_result, max_schedules=None):
             start = prefix[-1] + 1 if prefix else 0
             for (k, tid, name, other_alive) in list(s.trace):
                 if k >= start and other_alive:
+                    if not prefix and first is not None and k % first[1] != first[0]:
+                        continue        # sharding: this worker owns the first preemption points k = first[0] mod first[1]
                     rec(prefix + [k])
     rec([])
     return count[0]
